@@ -796,7 +796,7 @@ fn comp_oracle(c: &CompCase, cl: &mut u64) -> Result<(), Failure> {
 }
 
 pub fn run_all(ctx: &mut Ctx, replay: Option<&Path>) {
-    ctx.rule("(a) individual-level: histories of new/new_unevaluated/evaluate_with (two different objective functions)/set_objective/solution_mut (with and without a change)/clone/clone_from/Vec::clone_from/clone_from_slice/into_solution/as_solutions/as_solutions_mut/into_single(_ref)/best_individual/into_individuals/moves through the population stack over 3 slots against an evaluated-flag model, probing is_evaluated/get_objective/objective()/solution after every step; non-trivial = solution_mut on an evaluated individual followed by a read. (b) run-level: every shipped template with valid parameters; after EVERY component execution every individual reachable in any scope (population stack, best-so-far, archive, swarm and molecule memories) that is evaluated must carry bit-exactly f(solution); non-trivial = run with >= 3 passes in which some step changed a solution. (c) component-level: 34 shipped components on prepared evaluated populations (real-valued ones also on narrow domains with coordinates within two representable values of a bound and an objective that depends on every bit of the solution), plus the evaluation step with a harness evaluator that repairs solutions in place, and the crate's `mutation::mutation` driver around a harness Mutation that reports an error after it has written to the solution (the state left behind by the Err is audited too), same audit; distinct by case");
+    ctx.rule("(a) individual-level: histories of new/new_unevaluated/evaluate_with (two different objective functions)/set_objective/solution_mut (with and without a change)/clone/clone_from/Vec::clone_from/clone_from_slice/into_solution/as_solutions/as_solutions_mut/into_single(_ref)/best_individual/into_individuals/moves through the population stack over 3 slots against an evaluated-flag model, probing is_evaluated/get_objective/objective()/solution after every step; non-trivial = solution_mut on an evaluated individual followed by a read. (b) run-level: every shipped template with valid parameters; after EVERY component execution every individual reachable in any scope (population stack, best-so-far, archive, swarm and molecule memories) that is evaluated must carry bit-exactly f(solution); non-trivial = run with >= 3 passes in which some step changed a solution. (c) component-level: 34 shipped components on prepared evaluated populations (bit-valued and permutation operators also on partly evaluated ones) (real-valued ones also on narrow domains with coordinates within two representable values of a bound and an objective that depends on every bit of the solution), plus the evaluation step with a harness evaluator that repairs solutions in place, and the crate's `mutation::mutation` driver around a harness Mutation that reports an error after it has written to the solution (the state left behind by the Err is audited too), same audit; distinct by case");
     ctx.assume("the harness objective is a pure function of the solution; set_objective is only used with f(solution)");
     let i = IndCheck;
     let c = CompCheck;
